@@ -74,7 +74,7 @@ func ruleChangeToFirstInput(c *report.Ctx) {
 	n := 0
 	an.Instrs(f, func(in ssa.Instruction) {
 		cc := an.CallOf(in)
-		if cc == nil || cc.StaticCallee() == nil || an.FuncKey(cc.StaticCallee()) != "bytes.Equal" {
+		if cc == nil || cc.StaticCallee() == nil || an.CanonKeyOf(cc.StaticCallee()) != "bytes.Equal" {
 			return
 		}
 		for _, a := range cc.Args {
@@ -395,7 +395,7 @@ func ruleAmountStringUntouched(c *report.Ctx) {
 			}
 			return true, ""
 		case *ssa.Call:
-			if cal := x.Call.StaticCallee(); cal != nil && strings.HasPrefix(an.FuncKey(cal), "strings.Trim") {
+			if cal := x.Call.StaticCallee(); cal != nil && strings.HasPrefix(an.CanonKeyOf(cal), "strings.Trim") {
 				return okSrc(x.Call.Args[0], depth+1) // removes characters at the ends only (blanks, a unit suffix): the parser still sees the caller's digits
 			}
 			return false, p.Desc(v)
@@ -429,7 +429,7 @@ func ruleAmountCtorErrorUsed(c *report.Ctx) {
 			if !ok || call.Call.StaticCallee() == nil {
 				return
 			}
-			k := an.FuncKey(call.Call.StaticCallee())
+			k := an.CanonKeyOf(call.Call.StaticCallee())
 			if !strings.HasSuffix(k, "massutil.NewAmountFromInt") && !strings.HasSuffix(k, "massutil.NewAmountFromUint") {
 				return
 			}
@@ -705,7 +705,7 @@ func ruleRefusalByKeyMaterialOnly(c *report.Ctx) {
 			}
 			n++
 			key := siteKey(f, "refusal", n)
-			gs := p.Guards(b)
+			gs := p.GuardsOnEdge(pr, b)
 			byMaterial := an.AnyAtom(gs, func(a an.Atom) bool {
 				d := p.Desc(a.X)
 				if a.Y != nil {
@@ -718,7 +718,10 @@ func ruleRefusalByKeyMaterialOnly(c *report.Ctx) {
 			} else {
 				c.Fail(key, "checkPassword refuses a candidate on a path where neither the stored passphrase hash nor DeriveKey has judged it: a wallet whose (imported) passphrase does not match the pre-check can no longer sign, export or reveal its mnemonic with the right passphrase", posOf(c, r), an.AtomTexts(gs)...)
 			}
-			break
+			// one site per return; per predecessor only when the returned error is merged in this block
+			if ph, isPhi := an.RetOperand(r, 0).(*ssa.Phi); !isPhi || ph.Block() != b {
+				break
+			}
 		}
 	}
 }
@@ -784,7 +787,7 @@ func ruleLastTxBoundInclusive(c *report.Ctx) {
 		}
 		var hPar, fld ssa.Value
 		for _, v := range []ssa.Value{b.X, b.Y} {
-			if par, isPar := v.(*ssa.Parameter); isPar && par.Name() == "height" {
+			if par, isPar := v.(*ssa.Parameter); isPar && par == onlyParamOfType(f, "uint64") {
 				hPar = v
 			} else if strings.HasSuffix(p.Desc(v), ".Height") {
 				fld = v
@@ -997,7 +1000,7 @@ func ruleBlockRecordCount(c *report.Ctx) {
 	var ctr []ssa.Instruction
 	an.Instrs(f, func(in ssa.Instruction) {
 		cc := an.CallOf(in)
-		if cc == nil || cc.StaticCallee() == nil || !strings.HasSuffix(an.FuncKey(cc.StaticCallee()), "Endian).PutUint32") || len(cc.Args) < 3 {
+		if cc == nil || cc.StaticCallee() == nil || !strings.HasSuffix(an.CanonKeyOf(cc.StaticCallee()), "Endian).PutUint32") || len(cc.Args) < 3 {
 			return
 		}
 		if sl, ok := cc.Args[1].(*ssa.Slice); ok && sl.Low != nil {
